@@ -1,16 +1,15 @@
 package rules
 
-import (
-	"go/ast"
-	"go/token"
-	"strings"
+import "lachk/core"
 
-	"lachk/core"
-)
+// Extensions: clauses added to a property after its own file was written (mostly after seeded changes
+// were missed). Each lives in cNN_ext.go; this file only wires them.
 
-// extend appends further clauses to an already registered property (files are initialised in name
-// order, so extensions live in files that sort after the property's own file; this one is "extend.go"
-// and is applied from registerExtensions, called by the first use of the registry).
+type ext struct {
+	id string
+	fn func(*core.Ctx)
+}
+
 func extend(id string, extra func(c *core.Ctx)) {
 	r, ok := Registry[id]
 	if !ok {
@@ -26,15 +25,16 @@ func extend(id string, extra func(c *core.Ctx)) {
 
 var extensionsDone = false
 
-// ApplyExtensions wires the extra clauses; called once from main before the registry is used.
+// ApplyExtensions wires the extra clauses and the thorough-tier passes; called once from main.
 func ApplyExtensions() {
 	if extensionsDone {
 		return
 	}
 	extensionsDone = true
-	extend("C15", c15LoopVars)
-	extend("C23", c23Successor)
-	for _, e := range extraExtensions {
+	for _, e := range []ext{
+		{"C01", c01Slots}, {"C02", c02MarkCodec}, {"C05", c05ForkPairs}, {"C08", c08Roots},
+		{"C15", c15LoopVars}, {"C16", c16Captures}, {"C17", c17Captures}, {"C23", c23Successor}, {"C26", c26VerifyScope}, {"C27", c27NoLeakOnError}, {"C28", c28SplitRMW},
+	} {
 		extend(e.id, e.fn)
 	}
 	for id, fn := range thoroughRuns {
@@ -42,123 +42,4 @@ func ApplyExtensions() {
 		r.ThoroughRun = fn
 		Registry[id] = r
 	}
-}
-
-// c15LoopVars: the per-event check result must carry the event and position of its own iteration.
-// With the module's per-loop variable semantics (go.mod declares go < 1.22) a callback created inside
-// the batch loop that refers to the loop variables sees their values at the time it runs — after the
-// loop has moved on when the check completes asynchronously — so results are attributed to the wrong
-// event: events are released several times or never, and an ordered batch never completes.
-func c15LoopVars(c *core.Ctx) {
-	c.Clause("C15.loopvar", func() {
-		n := 0
-		for _, f := range c.P.FuncsInPkg("gossip/dagprocessor") {
-			all := append([]*core.FuncInfo{f}, allLits(f)...)
-			for _, g := range all {
-				n++
-				for _, lc := range core.LoopVarCaptures(g) {
-					c.Fail(short(g.Name)+"|callback refers to loop variable "+lc.Var.Name(), "loop-variable capture (per-loop semantics, go < 1.22)", lc.Pos,
-						"a function literal that is not invoked on the spot refers to the iteration variable "+lc.Var.Name()+": when it runs later it sees another iteration's value (check results are attributed to the wrong event / position)")
-				}
-			}
-		}
-		c.Pass("no deferred-use literal refers to a loop variable", "loop-variable capture", "every callback created in a loop uses per-iteration copies")
-		c.ExpectAtLeast("functions and literals scanned in gossip/dagprocessor", n, 10)
-	})
-}
-
-// c23Successor: the pebble upper bound of a prefix scan is the shortest successor of the prefix:
-// the prefix cut after the last byte below 0xff, with that byte incremented (as goleveldb's
-// util.BytesPrefix). A longer bound (trailing 0xff bytes kept) lets keys between the true bound and
-// the too-large one leak into the scan.
-func c23Successor(c *core.Ctx) {
-	c.Clause("C23.range.successor", func() {
-		f := c.Fn("kvdb/pebble.bytesPrefix")
-		prefix := f.Param(0)
-		var loop *ast.ForStmt
-		f.InspectOwn(func(n ast.Node) bool {
-			if fs, ok := n.(*ast.ForStmt); ok && loop == nil {
-				loop = fs
-			}
-			return true
-		})
-		c.Need(loop != nil, "bytesPrefix scans the prefix from the end")
-		var iv = func() *ast.Ident {
-			if as, ok := loop.Init.(*ast.AssignStmt); ok && len(as.Lhs) == 1 {
-				id, _ := as.Lhs[0].(*ast.Ident)
-				return id
-			}
-			return nil
-		}()
-		c.Need(iv != nil, "loop index variable")
-		ivar := varOf(f, iv)
-		// scan direction: starts at len(prefix)-1, steps down
-		okDir := false
-		if as, ok := loop.Init.(*ast.AssignStmt); ok {
-			l := core.Linearize(f.Info(), as.Rhs[0], func(e ast.Expr) string {
-				if call := isCallTo(f, e, "builtin.len"); call != nil && varOf(f, call.Args[0]) == prefix {
-					return "len"
-				}
-				return ""
-			})
-			if inc, ok := loop.Post.(*ast.IncDecStmt); ok && inc.Tok == token.DEC && coefIs(l, "len", 1) && l.C.Int64() == -1 {
-				okDir = true
-			}
-		}
-		c.Check(okDir, "bytesPrefix|scans from the last byte downwards", "loop shape", loop.Pos(), "for i := len(prefix)-1; i >= 0; i--", "the successor is not computed from the last byte below 0xff")
-		// the limit: make([]byte, i+1) ... copy(limit, prefix) ... limit[i] = c+1   (or prefix[:i+1] copied)
-		nAlloc := 0
-		for _, a := range assignments(f) {
-			call := isCallTo(f, a.RHS, "builtin.make")
-			if call == nil || a.RHS == nil || len(call.Args) < 2 {
-				continue
-			}
-			if enclosingLoop(f, a.Stmt.Pos()) != ast.Stmt(loop) {
-				continue
-			}
-			nAlloc++
-			l := core.Linearize(f.Info(), call.Args[1], func(e ast.Expr) string {
-				if varOf(f, e) == ivar {
-					return "i"
-				}
-				return ""
-			})
-			okLen := len(l.Coef) == 1 && coefIs(l, "i", 1) && l.C.Int64() == 1
-			c.Check(okLen, "bytesPrefix|upper bound has length i+1", "T14/T15 (normalised length)", a.Stmt.Pos(), "the bound is the prefix cut after byte i (length i+1)", "the upper bound keeps bytes after the incremented one ("+strings.TrimSpace(exprStr(call.Args[1]))+" instead of i+1): keys between the shortest successor and this bound are included in the scan")
-			// the incremented byte
-			lv := varOf(f, a.LHS)
-			okInc := false
-			for _, b := range assignments(f) {
-				ix, ok := ast.Unparen(b.LHS).(*ast.IndexExpr)
-				if !ok || varOf(f, ix.X) != lv || varOf(f, ix.Index) != ivar || b.RHS == nil {
-					continue
-				}
-				lin := core.Linearize(f.Info(), b.RHS, func(e ast.Expr) string {
-					if v := varOf(f, e); v != nil {
-						for _, d := range assignsToVar(f, v) {
-							if px, ok := ast.Unparen(d.RHS).(*ast.IndexExpr); ok && d.RHS != nil && varOf(f, px.X) == prefix && varOf(f, px.Index) == ivar {
-								return "byte"
-							}
-						}
-					}
-					if px, ok := ast.Unparen(e).(*ast.IndexExpr); ok && varOf(f, px.X) == prefix && varOf(f, px.Index) == ivar {
-						return "byte"
-					}
-					return ""
-				})
-				okInc = len(lin.Coef) == 1 && coefIs(lin, "byte", 1) && lin.C.Int64() == 1
-			}
-			c.Check(okInc, "bytesPrefix|byte i of the bound is prefix[i]+1", "T14", a.Stmt.Pos(), "limit[i] = prefix[i] + 1", "the bound's last byte is not the prefix byte incremented by one")
-			okCopy := false
-			for _, cs := range f.CallsTo("builtin.copy") {
-				if varOf(f, cs.Call.Args[0]) == lv && varOf(f, cs.Call.Args[1]) == prefix {
-					okCopy = true
-				}
-			}
-			c.Check(okCopy, "bytesPrefix|bound starts with the prefix bytes", "T14", a.Stmt.Pos(), "copy(limit, prefix)", "the bound is not initialised from the prefix")
-		}
-		if nAlloc == 0 {
-			c.Undecided("bytesPrefix|upper bound construction", "T14", f.Pos(), "the upper bound is not built by make+copy inside the scan loop: the rule cannot tell whether it is the shortest successor")
-		}
-	})
 }
